@@ -1,6 +1,6 @@
 """R-RESET, R-SRCCONST (C05)."""
 from . import compdb
-from .prog import AnalysisBroken, key, strip, walk, const_value, resolve_key
+from .prog import AnalysisBroken, key, strip, walk, const_value, resolve_key, single_assignment_locals
 from .rules_cg import conversion_roots
 
 DSTRING_MUTATORS = {"d_string_append", "d_string_append_c", "d_string_append_c_array", "d_string_append_printf",
@@ -226,6 +226,202 @@ def r_srcconst(P, chk):
     chk.floor(rid, nf, 250, "functions in the conversion cone")
     for e in sorted(SRC_EXCEPT):
         chk.notes.append("R-SRCCONST exception %s: documented in-place replacement of an OPML/ITMZ source" % e)
+
+
+# ---------------------------------------------------------------------------
+# R-OUTVAL: a value received through `&v` from a function that stores it only on some paths
+
+def _out_summary(P):
+    """(function id, parameter index) -> 'always' | 'sometimes' for pointer parameters the function stores through
+    (`*p = ..`, `p[0] = ..`): 'always' if every path from the entry to the exit passes such a store (tests of the pointer
+    itself decided non-null)."""
+    from .prog import edpe_blocks
+    if hasattr(P, "_out_summary"):
+        return P._out_summary
+    out = {}
+    for g in P.all_funcs:
+        if not P.first_party(g) or g.unit.base in compdb.GENERATED_UNITS or g.unit.base in ("miniz.c", "argtable3.c"):
+            continue
+        for i, prm in enumerate(g.params):
+            if not prm[1].rstrip().endswith("*") or prm[1].count("*") != 1:
+                continue
+            base = prm[1].replace("const", "").replace("*", "").strip()
+            if base not in ("size_t", "short", "int", "long", "unsigned int", "unsigned short", "unsigned long", "bool", "_Bool"):
+                continue
+            pn = prm[0]
+            pos = g.cfg.positions()
+            stores = [x for x in g.walk() if x["k"] == "BinaryOperator" and x["op"] == "=" and key(x["c"][0]).replace("(", "").replace(")", "")
+                      in ("*" + pn, pn + "[0]") and x.get("i") in pos]
+            if not stores:
+                continue
+            sb = {pos[x["i"]][0] for x in stores}
+
+            def nonnull(t_, pn=pn):
+                t2 = strip(t_)
+                if t2 is None:
+                    return None
+                if t2["k"] == "DeclRefExpr" and t2["n"] == pn:
+                    return True
+                if t2["k"] == "BinaryOperator" and t2["op"] in ("!=", "==") and key(t2["c"][0]) == pn and const_value(t2["c"][1]) == 0:
+                    return t2["op"] == "!="
+                return None
+            reach = edpe_blocks(g, "?none", 0, extra_decide=nonnull, blocked=sb)
+            out[(P.fid(g), i)] = "sometimes" if g.cfg.exit in reach else "always"
+    P._out_summary = out
+    return out
+
+
+def r_outval(P, chk, only_units=None):
+    from .prog import edpe_blocks, reaching_defs
+    from .rules_mem import _reaches
+    rid = "R-OUTVAL"
+    chk.rule(rid, "a local filled through `&v` by a function that stores the result only on some of its paths, and that may still "
+                  "hold what an earlier such call stored (the same call round a loop included), is read only where the call's result "
+                  "has been tested true")
+    summ = _out_summary(P)
+    n = 0
+    for f in P.all_funcs:
+        if not P.first_party(f) or f.unit.base in compdb.GENERATED_UNITS or f.unit.base in ("miniz.c", "argtable3.c"):
+            continue
+        if only_units is not None and f.unit.base not in only_units:
+            continue
+        pos = f.cfg.positions()
+        sites = []
+        for c in f.calls():
+            g = P.resolve(f, c.get("callee") or "")
+            if g is None or c.get("i") not in pos:
+                continue
+            for i, a in enumerate(c["c"][1:]):
+                sa = strip(a)
+                if sa is not None and sa["k"] == "UnaryOperator" and sa["op"] == "&":
+                    v = strip(sa["c"][0])
+                    if v is not None and v["k"] == "DeclRefExpr" and v.get("dk") == "Var" and (P.fid(g), i) in summ:
+                        sites.append((c, v["n"], summ[(P.fid(g), i)], g))
+        for c, v, how, g in sites:
+            if how != "sometimes":
+                continue
+            n += 1
+            # definitions of v: assignments, initialiser, and calls that always store through &v
+            kills = [x for x in f.walk() if (x["k"] == "BinaryOperator" and x["op"] == "=" and key(x["c"][0]) == v) and x.get("i") in pos]
+            kills += [c2 for c2, v2, h2, _ in sites if v2 == v and h2 == "always"]
+            # what can v hold when the call is made?
+            # (another such call, or this one again round a loop, with no assignment to v in between)
+            other_calls = [c2 for c2, v2, h2, _ in sites if v2 == v and h2 == "sometimes" and _reaches(f, pos, c2, c, kills)]
+            const_before = not other_calls
+            al = {nm for nm, init in single_assignment_locals(f).items() if strip(init) is not None and strip(init).get("i") == c["i"]}
+
+            def decide(t_, cid=c["i"], al=al):
+                t2 = strip(t_)
+                if t2 is None:
+                    return None
+                if t2.get("i") == cid or (t2["k"] == "DeclRefExpr" and t2["n"] in al):
+                    return False
+                return None
+            fail_blocks = edpe_blocks(f, "?none", 0, extra_decide=decide)
+            bad = None
+            for x in f.walk():
+                if x["k"] != "DeclRefExpr" or x.get("n") != v:
+                    continue
+                par = f.parent(x)
+                if par is not None and par["k"] == "UnaryOperator" and par["op"] == "&":
+                    continue
+                if par is not None and par["k"] == "BinaryOperator" and par["op"] == "=" and strip(par["c"][0]) is x:
+                    continue
+                z = x
+                while z is not None and z.get("i") not in pos:
+                    z = f.parent(z)
+                if z is None or z is c or any(y is c for y in f.ancestors(x)):
+                    continue
+                if not _reaches(f, pos, c, z, kills):
+                    continue
+                if pos[z["i"]][0] not in fail_blocks:
+                    continue          # only runs when the call returned true
+                if const_before:
+                    continue
+                bad = x
+                break
+            chk.obligation(rid, "%s %s: `%s` filled by %s (stores it only on some paths)%s" % (
+                f.where(c), f.name, v, g.name, " - no earlier such call can have left a value in it" if const_before else ""), bad is None)
+            if bad is not None:
+                chk.violation(rid, "outval:%s:%s:%s" % (f.name, g.name, v), f.where(bad),
+                              "%s reads `%s` at line %d although %s (line %d) stores it only on some paths and its result is not "
+                              "tested there; the value left by an earlier call is used" % (f.name, v, bad["l"], g.name, c["l"]))
+    chk.floor(rid, n, 3, "calls that fill a local through a conditionally stored out-parameter")
+
+
+# ---------------------------------------------------------------------------
+# R-ENGCONF (C05): a conversion does not change the engine's configuration
+
+ENGCONF_REVIEWED = {
+    "random_seed_base_labels": "by design: the label seed the export used is kept so that a later export of the same parse "
+                               "generates the same random labels; it is derived from the engine's own value",
+}
+
+
+def r_engconf(P, chk):
+    rid = "R-ENGCONF"
+    chk.rule(rid, "no function reachable from parsing or exporting writes a scalar field of struct mmd_engine that survives the "
+                  "conversion: such a write is an increment/decrement pair (R-INCDEC), is saved and restored in the same function, "
+                  "re-assigned before use on every parse (R-RESET), or reviewed")
+    rec = P.records.get("mmd_engine")
+    if rec is None:
+        raise AnalysisBroken("struct mmd_engine is gone")
+    scalars = {fl[0] for fl in rec["fields"] if not (fl[1].replace(" ", "") in ("stack*", "structstack*", "DString*", "token*") or
+                                                    fl[0].endswith("_hash") or "*" in fl[1])}
+    chk.floor(rid, len(scalars), 5, "scalar fields of struct mmd_engine")
+    roots = [("mmd.c", "mmd_engine_parse_substring"), ("writer.c", "mmd_engine_export_token_tree")]
+    pred = P.reach(roots)
+    reset = P.func("mmd_engine_reset", "mmd.c")
+    tz = P.func("mmd_tokenize_string", "mmd.c")
+    per_parse = set()
+    for g in (reset, tz):
+        for x in g.walk():
+            if x["k"] == "BinaryOperator" and x["op"] == "=":
+                l = strip(x["c"][0])
+                if l is not None and l["k"] == "MemberExpr" and l.get("rec") == "mmd_engine" and \
+                        g.cfg.block_postdominates(g.block_of(x), g.cfg.entry):
+                    per_parse.add(l["n"])
+    n = 0
+    for f in P.all_funcs:
+        if not P.first_party(f) or P.fid(f) not in pred:
+            continue
+        for x in f.walk():
+            l = None
+            kind = None
+            if x["k"] == "BinaryOperator" and x["op"] == "=" or x["k"] == "CompoundAssignOperator":
+                l, kind = strip(x["c"][0]), "store"
+            elif x["k"] == "UnaryOperator" and x["op"] in ("post++", "pre++", "post--", "pre--"):
+                l, kind = strip(x["c"][0]), "incdec"
+            if l is None or l["k"] != "MemberExpr" or l.get("rec") != "mmd_engine" or l["n"] not in scalars:
+                continue
+            n += 1
+            fld = l["n"]
+            desc = "%s %s writes mmd_engine.%s" % (f.where(x), f.name, fld)
+            if kind == "incdec":
+                chk.obligation(rid, desc + " as an increment / decrement (balanced: R-INCDEC)", True, nontrivial=False)
+                continue
+            if fld in per_parse or fld == "allow_meta":
+                chk.obligation(rid, desc + ", which every parse re-assigns before use", True)
+                continue
+            # save / restore in the same function: `old = e->F; ... e->F = old;` with the restore on every path to the exit
+            lk = key(x["c"][0])
+            saves = {nm for nm, init in single_assignment_locals(f).items() if key(init) == lk}
+            restores = [y for y in f.walk() if y["k"] == "BinaryOperator" and y["op"] == "=" and key(y["c"][0]) == lk and key(y["c"][1]) in saves]
+            if restores and (x in restores or any(f.cfg.postdominates(r["i"], x["i"]) for r in restores)):
+                chk.obligation(rid, desc + ", saved before and restored on every path out", True)
+                continue
+            if fld in ENGCONF_REVIEWED:
+                chk.obligation(rid, desc + " - reviewed: " + ENGCONF_REVIEWED[fld], True)
+                note = "R-ENGCONF reviewed mmd_engine.%s: %s" % (fld, ENGCONF_REVIEWED[fld])
+                if note not in chk.notes:
+                    chk.notes.append(note)
+                continue
+            chain = " -> ".join(c[1] for c in P.chain(pred, P.fid(f)))
+            chk.obligation(rid, desc, False)
+            chk.violation(rid, "engconf:%s:%s" % (f.name, fld), f.where(x),
+                          "%s, reached from a conversion (%s), writes mmd_engine.%s, which nothing resets: the value set while "
+                          "converting one document is still in force when the same engine converts the next" % (f.name, chain, fld))
+    chk.floor(rid, n, 4, "writes to scalar engine fields inside the conversion cone")
 
 
 # ---------------------------------------------------------------------------
